@@ -60,7 +60,7 @@ def drive(work, cfgs, seed, depth, limit, nrandom, mutant=None):
 
 
 def consts_of(c):
-    return dict(Kind="periodic" if c["kind"] == "periodic" else "iterable", NI=c.get("ni", 1000), Poll=int(c.get("poll", 0)),
+    return dict(Kind="periodic" if c["kind"] in ("periodic", "custom_gen", "custom_future") else "iterable", NI=c.get("ni", 1000), Poll=int(c.get("poll", 0)),
                 MaxLoops=6, MaxTime=100000, MaxCalls=1000, Guarded=True, SyncCons=c.get("cons", "future") == "sync")
 
 
@@ -88,7 +88,9 @@ def run(tier, seed, mutant=None, only_validate=False):
                 {"kind": "iterable", "ni": 4, "cons": "future"}, {"kind": "iterable", "ni": 4, "cons": "sync"},
                 {"kind": "iterable", "ni": 3, "cons": "coro"},
                 {"kind": "iterable", "ni": 4, "cons": "sync", "stop_at": 2}, {"kind": "iterable", "ni": 4, "cons": "future", "stop_at": 1},
-                {"kind": "periodic", "poll": 2, "cons": "sync", "stop_at": 2}]
+                {"kind": "periodic", "poll": 2, "cons": "sync", "stop_at": 2},
+                # user-defined sources whose run() is a tornado coroutine / returns a Future
+                {"kind": "custom_gen", "poll": 2, "cons": "future"}, {"kind": "custom_future", "poll": 2, "cons": "sync"}]
         runs = drive(work, cfgs, seed, 7 if tier == "quick" else 9, 250 if tier == "quick" else 3000,
                      150 if tier == "quick" else 1500, mutant=mutant)
         # reuse the generic grouping / validation of amod.node_engine by handing it pre-recorded runs
